@@ -4,5 +4,5 @@ CONSTANTS
   FaultSegs = 1
   Wide = FALSE
 SPECIFICATION Spec
-INVARIANTS MachineIsDeclarative FoldIsMachine MalformedRejected IndicesResolve LinesNonDecreasing LineIsSemiCount EmitCase
+INVARIANTS MachineIsDeclarative FoldIsMachine MalformedRejected IndicesResolve LinesNonDecreasing LineIsSemiCount ExactAgrees EmitCase
 CHECK_DEADLOCK FALSE
